@@ -45,7 +45,8 @@ ATTACKS = ["bitflip", "drop", "dup", "swap", "strip13", "lower_version",
 PROBES = ATTACKS + ["both_complete_same", "sentinel_seen",
                     "client_aborted_on_sentinel", "fallback_refused",
                     "resumption", "hrr", "tls13_base", "tls12_base",
-                    "fallback_with_session"]
+                    "fallback_with_session", "ticket_compared",
+                    "sentinel_tls12_server"]
 COMPONENTS_REAL = ["tlslite handshakes (transcript hashing, Finished / "
                    "binder checks, downgrade sentinel, FALLBACK_SCSV)"]
 COMPONENTS_STUB = ["socket", "os.urandom", "clock", "on-path attacker"]
@@ -69,7 +70,7 @@ def draw_scenario(ch):
     if lo > hi:
         lo = hi
     fl = ["cert", "cert_cauth", "srp", "anon", "psk", "hrr", "resume_id",
-          "resume_ticket"][ch.draw(8, "cfg.fl")]
+          "resume_ticket", "tickets"][ch.draw(9, "cfg.fl")]
     sc = {"cset": {"minVersion": list(lo), "maxVersion": list(hi)},
           "sset": {"minVersion": list(lo), "maxVersion": list(hi)},
           "flavour": "cert", "skey": ["rsa", "ecdsa"][ch.draw(2, "cfg.key")]}
@@ -91,6 +92,9 @@ def draw_scenario(ch):
     elif fl == "hrr" and hi == (3, 4):
         sc["cset"]["keyShares"] = []
         sc["hrr"] = True
+    elif fl == "tickets":
+        # full handshake of a ticket-issuing server
+        sc["sset"]["ticketKeys"] = ["33" * 32]
     elif fl in ("resume_id", "resume_ticket"):
         sc["resume"] = fl
         if fl == "resume_ticket":
@@ -261,6 +265,12 @@ def run(job, streams=None):
             d = ["c2s", "s2c"][ch.draw(2, "a.dir")]
             n = max(1, plain[d])
             idx = ch.draw(n, "a.rec")
+            nst_i = [i for i in range(plain["s2c"])
+                     if lay["s2c"][i][0] == 22 and lay["s2c"][i][2][:1] ==
+                     b"\x04"]
+            if nst_i and ch.draw(2, "a.nst") == 1:
+                # the RFC 5077 NewSessionTicket travels in the clear
+                d, idx = "s2c", nst_i[0]
             blen = len(lay[d][idx][2]) if idx < len(lay[d]) else 10
             pos = 5 + ch.draw(max(1, blen), "a.pos")
             if ch.draw(6, "a.hdr") == 1:
@@ -347,6 +357,20 @@ def run(job, streams=None):
                 v("downgrade", "%s|%s" % (kind, f),
                   "both completed under attack with %s=%r, un-attacked "
                   "negotiation gives %r" % (f, vc.get(f), base_c.get(f)))
+        # RFC 5077 ticket: what the client stored is what the server issued
+        nst = [m_ for m_ in observe.split_hs(
+            [r[4] for r in ts.records if r[0] == 22]) if m_[0] == 4]
+        if nst and tuple(vc["version"]) < (3, 4):
+            issued = bytes(nst[-1][10:])
+            held = [bytes(t_.ticket) for t_ in
+                    (pair.c.conn.session.tls_1_0_tickets or [])]
+            probes["ticket_compared"] = 1
+            if issued and issued not in held:
+                v("endpoints_disagree", "%s|ticket" % kind,
+                  "both completed under attack but the client holds ticket "
+                  "%s..., the server issued %s..." %
+                  (held[-1].hex()[:24] if held else None,
+                   issued.hex()[:24]))
         if fired and not viol:
             probes["both_complete_same"] = 1
     # ---- sentinel sub-oracle
@@ -357,16 +381,20 @@ def run(job, streams=None):
         # what the server put on the wire (before any s2c tampering)
         shv = tuple(obs["sh"]["version"])
         rnd = obs["sh"]["random"]
-        if smax == (3, 4) and shv <= (3, 3):
+        if (smax == (3, 4) and shv <= (3, 3)) or \
+                (smax == (3, 3) and shv < (3, 3)):
             want = SENT12 if shv == (3, 3) else SENT11
             if rnd[-8:] != want:
-                v("sentinel_missing", "%s|%s" % (kind, shv),
-                  "TLS 1.3 capable server negotiated %s without the "
-                  "downgrade sentinel in ServerHello.random" % (shv,))
+                v("sentinel_missing", "%s|%s|smax%d" % (kind, shv, smax[1]),
+                  "server (maxVersion %s) negotiated %s without the "
+                  "downgrade sentinel in ServerHello.random" % (smax, shv))
             else:
                 probes["sentinel_seen"] = 1
-                if cmax == (3, 4) and kind in ("strip13", "lower_version",
-                                               "strip_ext"):
+                if smax == (3, 3):
+                    probes["sentinel_tls12_server"] = 1
+                if cmax >= (3, 3) and cmax > shv and kind in (
+                        "strip13", "lower_version", "strip_ext") and \
+                        (cmax == (3, 4) or shv < (3, 3)):
                     # the client must abort right after ServerHello
                     after = [r for r in tc.records[1:]
                              if r[0] in (22, 20, 23)]
